@@ -8,7 +8,10 @@ Conventions (all taken from the trainers' docstrings and the property statement)
 * time is an integer step index ``t`` (real time ``t * dt``); ``pre[t][b][i]`` and
   ``post[t][b][o]`` are 0/1;
 * a synapse is a triple ``(i, o, d)``: presynaptic element, postsynaptic element and its
-  delay in whole steps; the synapse sees the presynaptic train shifted by ``d`` steps;
+  delay in whole steps; the synapse sees the presynaptic train shifted by ``d`` steps.
+  ``d`` may be a list with one delay per step (a trainer in ``delayed`` mode keeps the
+  undelayed history and reads it through the delays current at the step): everything
+  evaluated at step ``t`` then uses the train shifted by ``d[t]``;
 * a *weight element* owns a list of synapses (one for dense / direct / lateral
   connections, one per output location for a convolution kernel element); its update
   is the sum over its synapses;
@@ -158,9 +161,14 @@ def reference_run(rule: dict, pre, post, elements, *, reduction: str, modulation
         tq = [[0.0] * B for _ in range(T)]  # pre-triggered
         for (i, o, d) in syns:
             for b in range(B):
-                x = shifted([pre[t][b][i] for t in range(T)], d)
+                raw = [pre[t][b][i] for t in range(T)]
                 y = [post[t][b][o] for t in range(T)]
+                views: dict = {}
                 for t in range(T):
+                    dnow = d[t] if isinstance(d, (list, tuple)) else d
+                    if dnow not in views:
+                        views[dnow] = shifted(raw, dnow)
+                    x = views[dnow]
                     if not (x[t] or y[t]):
                         continue
                     p, q = step_terms(rule, x, y, t)
@@ -219,16 +227,18 @@ def pair_stats(pre, post, elements, called=None) -> dict:
     seen = set()
     for syns in elements:
         for (i, o, d) in syns:
-            out["delays"].add(d)
-            if (i, o, d) in seen:
+            key = (i, o, tuple(d) if isinstance(d, (list, tuple)) else d)
+            out["delays"].update(d if isinstance(d, (list, tuple)) else [d])
+            if key in seen:
                 continue
-            seen.add((i, o, d))
+            seen.add(key)
             for b in range(B):
-                x = shifted([pre[t][b][i] for t in range(T)], d)
+                raw = [pre[t][b][i] for t in range(T)]
                 y = [post[t][b][o] for t in range(T)]
                 for t in range(T):
                     if called is not None and not called[t]:
                         continue
+                    x = shifted(raw, d[t] if isinstance(d, (list, tuple)) else d)
                     if y[t]:
                         n = sum(x[:t])
                         out["causal"] += n
@@ -244,15 +254,25 @@ def pair_stats(pre, post, elements, called=None) -> dict:
 # connection topologies -> weight elements
 
 
+def _d(delays, *idx):
+    """Delay of the weight element ``idx``: ``delays`` is ``None``, an integer array shaped
+    like the weight, or a list of such arrays (one per step)."""
+    if delays is None:
+        return 0
+    if isinstance(delays, list):
+        vals = [int(a[idx]) for a in delays]
+        return vals[0] if len(set(vals)) == 1 else vals
+    return int(delays[idx])
+
+
 def dense_elements(n_in: int, n_out: int, delays=None):
     """Weight ``(n_out, n_in)`` in row-major order; ``delays[o][i]`` in steps."""
-    return [[(i, o, 0 if delays is None else int(delays[o][i]))]
-            for o in range(n_out) for i in range(n_in)]
+    return [[(i, o, _d(delays, o, i))] for o in range(n_out) for i in range(n_in)]
 
 
 def direct_elements(n: int, delays=None):
     """Weight ``(n,)``; ``delays[n]`` in steps."""
-    return [[(j, j, 0 if delays is None else int(delays[j]))] for j in range(n)]
+    return [[(j, j, _d(delays, j))] for j in range(n)]
 
 
 def conv2d_elements(channels, height, width, filters, kernel, stride, padding, dilation,
@@ -272,7 +292,7 @@ def conv2d_elements(channels, height, width, filters, kernel, stride, padding, d
         for c in range(channels):
             for a in range(kh):
                 for b_ in range(kw):
-                    d = 0 if delays is None else int(delays[f][c][a][b_])
+                    d = _d(delays, f, c, a, b_)
                     syns = []
                     for oy in range(oh):
                         for ox in range(ow):
